@@ -1095,12 +1095,16 @@ HLPread(accrec_t *access_rec, int32 length, void *datap)
     int32 ret_value  = SUCCEED;
 
     /* validate length */
-    if (length == 0)
-        length = info->length - access_rec->posn;
-    else if (length < 0)
+    if (length < 0)
         HGOTO_ERROR(DFE_RANGE, FAIL);
 
-    if (access_rec->posn + length > info->length)
+    /* at or after the end of the element there is nothing to read (and no block to
+       look up: a sub-read of length 0 would mean "the rest of the block") */
+    if (access_rec->posn >= info->length)
+        HGOTO_DONE(0);
+
+    /* length == 0 means to read to the end of the element; clamp to what is there */
+    if (length == 0 || length > info->length - access_rec->posn)
         length = info->length - access_rec->posn;
 
     /* search for linked block to start reading from */
